@@ -41,6 +41,14 @@ def run_case(c):
             hd["DIRECTIO"] = 1
         R.record(be_in, stem_in, cin, header_dict=hd)
         in_files = R.list_files(stem_in)
+        if c.get("npol4") and c["num_pols"] == 2:
+            # telescope files describe two polarisations as NPOL = 4 (four real streams): the readers take that as two polarisations
+            old_card = ("%-8s= %20s" % ("NPOL", 2)).ljust(80).encode()
+            new_card = ("%-8s= %20s" % ("NPOL", 4)).ljust(80).encode()
+            for f in in_files:
+                raw = open(f, "rb").read()
+                if old_card in raw:
+                    open(f, "wb").write(raw.replace(old_card, new_card))
         in_blocks = []
         for f in in_files:
             in_blocks.extend(R.parse_raw_bytes(open(f, "rb").read()))
